@@ -11,6 +11,7 @@ package main
 // Helpers of this file are shared with c15.go and c06.go.
 
 import (
+	"slices"
 	"strconv"
 	"fmt"
 	"sort"
@@ -99,6 +100,41 @@ func freshRun(toks []string, prep func(p *world.Pipeline), startup func(p *world
 	return p, ""
 }
 
+// histRun drives one long-lived pipeline through the history (events delivered through the real watchers, one
+// reconciliation per `sync` token and a last one at the end) and returns it.
+func histRun(toks []string) (p *world.Pipeline, errText string) {
+	opt, ops := syncOptions(toks)
+	w := world.NewWorld()
+	p, err := world.NewPipeline(w, opt)
+	if err != nil {
+		return nil, "ERR:" + sanitize(err.Error())
+	}
+	all := ops
+	if len(all) == 0 || all[len(all)-1] != "sync" {
+		all = append(append([]string(nil), all...), "sync")
+	}
+	for _, o := range all {
+		if o == "sync" {
+			if _, err := p.Reconcile(); err != nil {
+				txt := err.Error()
+				p.Close()
+				if strings.HasPrefix(txt, "PANIC") {
+					return nil, "PANIC"
+				}
+				return nil, "ERR:" + sanitize(txt)
+			}
+			continue
+		}
+		evs, err := w.Apply(world.Op{Text: o})
+		if err != nil {
+			p.Close()
+			return nil, "ERR:" + sanitize(err.Error())
+		}
+		p.Deliver(evs)
+	}
+	return p, ""
+}
+
 // requestsOf: every declared host/path and neighbours, http first then https
 func requestsOf(ops []string) (reqs []world.Request, snis []string) {
 	all, snis := world.RequestsFor(ops)
@@ -176,7 +212,16 @@ func c03case(c *ctx, toks []string) {
 			c.emit("C03", args, "PANIC")
 		}
 	}()
-	p, errText := freshRun(toks, nil, nil)
+	var p *world.Pipeline
+	var errText string
+	if slices.Contains(toks, "sync") {
+		// a history: the configuration judged is the one a LONG-LIVED controller holds after the incremental
+		// reconciliations (the Spec is the same: it only looks at the final cluster state) — after seed C03e
+		p, errText = histRun(toks)
+		c.stat("histories", 1)
+	} else {
+		p, errText = freshRun(toks, nil, nil)
+	}
 	if p == nil {
 		c.emit("C03", args, errText)
 		c.stat("run_error", 1)
@@ -470,6 +515,96 @@ func runC03(c *ctx) {
 		g := &syncGen{r: r.Fork(), paths: syncPaths, tlsProb: [2]int{1, 3}}
 		c03case(c, g.world(5))
 	}
+	// histories: a generated world, one reconciliation, then rounds of Endpoints churn (new address lists, and
+	// updates that only flip readiness within the same address set), each followed by a reconciliation; the
+	// long-lived controller's configuration must obey the same Spec as a fresh one (after seed C03e)
+	kh := 150
+	if c.thorough() {
+		kh = 2000
+	}
+	rh := gen.New(c.seed ^ 0xc03e)
+	for i := 0; i < kh; i++ {
+		g := &syncGen{r: rh.Fork(), paths: syncPaths, tlsProb: [2]int{1, 3}}
+		c03case(c, c03history(g.r, g.world(4)))
+	}
+}
+
+// c03history appends endpoint churn to a one-batch world
+func c03history(r *gen.Rng, ops []string) []string {
+	eps := map[string][]string{} // "ns/name" -> addresses "ip:r|n:pod"
+	var keys []string
+	hasDrain := false
+	for _, o := range ops {
+		if strings.HasPrefix(o, "cm~") && strings.Contains(o, "drain-support=true") {
+			hasDrain = true
+		}
+		if strings.HasPrefix(o, "ep~") {
+			f := strings.SplitN(o[3:], "!", 2)
+			if len(f) == 2 {
+				if _, ok := eps[f[0]]; !ok {
+					keys = append(keys, f[0])
+				}
+				if f[1] == "-" {
+					eps[f[0]] = nil
+				} else {
+					eps[f[0]] = strings.Split(f[1], "+")
+				}
+			}
+		}
+	}
+	if len(keys) == 0 {
+		return ops
+	}
+	if !hasDrain && r.Chance(1, 2) {
+		ops = append([]string{"cm~drain-support=true"}, ops...)
+	}
+	ops = append(append([]string(nil), ops...), "sync")
+	rounds := r.Range(1, 3)
+	for k := 0; k < rounds; k++ {
+		n := r.Range(1, 2)
+		for j := 0; j < n; j++ {
+			key := gen.Pick(r, keys)
+			as := append([]string(nil), eps[key]...)
+			switch {
+			case len(as) > 0 && r.Chance(2, 3): // flip readiness, same address set
+				i := r.Intn(len(as))
+				all := r.Chance(1, 3)
+				for x := range as {
+					if x == i || all {
+						f := strings.Split(as[x], ":")
+						if len(f) >= 2 {
+							if f[1] == "r" {
+								f[1] = "n"
+							} else {
+								f[1] = "r"
+							}
+							as[x] = strings.Join(f, ":")
+						}
+					}
+				}
+			case len(as) > 1 && r.Chance(1, 2): // scale in
+				as = as[:len(as)-1]
+			default: // scale out: derive a new address from the key
+				ns, name, _ := strings.Cut(key, "/")
+				nsb := map[string]int{"d": 0, "e": 1}[ns]
+				sb := map[string]int{"app": 1, "api": 2, "web": 3}[name]
+				id := 10 + len(as) + k
+				rd := "r"
+				if r.Chance(1, 3) {
+					rd = "n"
+				}
+				as = append(as, fmt.Sprintf("10.%d.%d.%d:%s:%s-%d", nsb, sb, id, rd, name, id))
+			}
+			eps[key] = as
+			if len(as) == 0 {
+				ops = append(ops, "ep~"+key+"!-")
+			} else {
+				ops = append(ops, "ep~"+key+"!"+strings.Join(as, "+"))
+			}
+		}
+		ops = append(ops, "sync")
+	}
+	return ops
 }
 
 func secsDur(n int) time.Duration { return time.Duration(n) * time.Second }
@@ -483,6 +618,9 @@ func qq(s string) string {
 
 // minimised inputs of past findings / interesting corners (kept first)
 var c03corpus = []string{
+	// histories (long-lived controller): drain-support and an Endpoints update that only flips readiness (seed C03e)
+	"cm~drain-support=true svc+d/app!http:80:8080!- ep~d/app!10.0.1.1:r:app-1+10.0.1.2:r:app-2 ing+d/i1@1!haproxy,-!-!a.local>/:Prefix:app:80!-!- sync ep~d/app!10.0.1.1:r:app-1+10.0.1.2:n:app-2 sync",
+	"cm~drain-support=true svc+d/app!http:80:8080!- ep~d/app!10.0.1.1:r:app-1+10.0.1.2:n:app-2 ing+d/i1@1!haproxy,-!-!a.local>/:Prefix:app:80!-!- sync ep~d/app!10.0.1.1:n:app-1+10.0.1.2:r:app-2 sync",
 	// duplicate path: first-created ingress wins, the later one in another namespace is skipped
 	"svc+d/app!http:80:8080!- ep~d/app!10.0.1.1:r:app-1 svc+e/app!http:80:8080!- ep~e/app!10.1.1.1:r:app-1 ing+e/i1@2!haproxy,-!-!a.local>/:Prefix:app:80!-!- ing+d/i2@1!haproxy,-!-!a.local>/:Prefix:app:80!-!-",
 	// https only with a tls entry; default host catches the rest
